@@ -58,6 +58,12 @@ def main(argv):
                 props = [x for x in props if x in by_prop]
         if props:
             jobs.append((p, props))
+    # behaviour-preserving refactorings (refactors/*.patch): every named check must stay green (no alarm, no harness error)
+    refjobs = []
+    for p in sorted(glob.glob(os.path.join(V, "refactors", "*.patch"))):
+        if only and not any(o in p for o in only) and not any(o == "refactors" for o in only):
+            continue
+        refjobs.append((p, ["C01", "C02", "C08", "C09", "C17", "C19"]))
     res = []
     with cf.ThreadPoolExecutor(int(os.environ.get("SELFTEST_JOBS", "3"))) as ex:
         for o in ex.map(lambda j: run_one(*j), jobs):
@@ -66,7 +72,23 @@ def main(argv):
                 print("%-55s %s %-9s %5.1fs  %s" % (o["patch"], p, "DETECTED" if r["detected"] else "missed(exit %d)" % r["exit"], r["seconds"], r["why"][:110]))
             if "error" in o:
                 print("%-55s ERROR %s" % (o["patch"], o["error"][:200]))
-    json.dump(res, open(os.path.join(V, "mutants", "RESULTS.json"), "w"), indent=1)
-    missed = [o["patch"] for o in res if any(not r["detected"] for r in o.get("results", {}).values()) or "error" in o]
+    ref_bad = 0
+    with cf.ThreadPoolExecutor(2) as ex:
+        for o in ex.map(lambda j: run_one(*j), refjobs):
+            o["expect"] = "green"
+            res.append(o)
+            for p, r in o.get("results", {}).items():
+                okk = r["exit"] == 0
+                ref_bad += 0 if okk else 1
+                print("%-55s %s %-9s %5.1fs" % (o["patch"], p, "green" if okk else "ALARM(exit %d)" % r["exit"], r["seconds"]))
+    old = []
+    rp = os.path.join(V, "mutants", "RESULTS.json")
+    if only and os.path.exists(rp):   # partial run: merge into the stored results
+        old = [o for o in json.load(open(rp)) if o["patch"] not in {x["patch"] for x in res}]
+    json.dump(old + res, open(rp, "w"), indent=1)
+    if ref_bad:
+        print("selftest: %d alarm(s) on behaviour-preserving refactorings" % ref_bad)
+        return 1
+    missed = [o["patch"] for o in res if o.get("expect") != "green" and (any(not r["detected"] for r in o.get("results", {}).values()) or "error" in o)]
     print("selftest: %d patches, %d with a miss" % (len(res), len(missed)))
     return 0 if not missed else 1
